@@ -75,6 +75,13 @@ def generate(rng, tier):
         case["map"] = m
         if case["reader"] in ("df-csv", "lod-csv") and rng.random() < 0.3:
             case["sep"] = rng.choice([";", "\t", "|"])
+        if case["reader"] in ("df-csv", "lod-csv") and rng.random() < 0.25:
+            # header-less file: columns are known by generated names a, b, c, ...
+            case["noheader"] = True
+            gnames = "abcdefghij"[:len(names)]
+            k = rng.randint(1, len(names))
+            case["subset"] = rng.sample(list(gnames), k)
+            case["map"] = {}
     else:
         alias = rng.choice(ALIASES)
         case["alias"] = alias
@@ -201,10 +208,14 @@ def execute(case):
         if reordered: res.cls("subset:reordered")
         if m: res.cls("map:nonempty")
         try:
+            hdr = not case.get("noheader")
+            if not hdr:
+                names = list("abcdefghij"[:len(names)])
+                res.cls("restrict:header-less")
             if reader == "df-csv":
-                path = os.path.join(d, "f.csv"); _write(case, path, "csv", sep=sep)
-                full = di.DataFrame.read_csv(path, sep=sep)
-                got = di.DataFrame.read_csv(path, sep=sep, columns=list(sub), dtypes={k: TYPES.get(v, v) for k, v in m.items()})
+                path = os.path.join(d, "f.csv"); _write(case, path, "csv", sep=sep, header=hdr)
+                full = di.DataFrame.read_csv(path, sep=sep, header=hdr)
+                got = di.DataFrame.read_csv(path, sep=sep, header=hdr, columns=list(sub), dtypes={k: TYPES.get(v, v) for k, v in m.items()})
             elif reader == "df-json":
                 path = os.path.join(d, "f.json"); _write(case, path, "json")
                 full = di.DataFrame.read_json(path)
@@ -218,9 +229,9 @@ def execute(case):
                 full = di.GeoJSON.read(path)
                 got = di.GeoJSON.read(path, columns=list(sub), dtypes={k: TYPES.get(v, v) for k, v in m.items()})
             elif reader == "lod-csv":
-                path = os.path.join(d, "f.csv"); _write(case, path, "csv", sep=sep)
-                full = di.ListOfDicts.read_csv(path, sep=sep)
-                got = di.ListOfDicts.read_csv(path, sep=sep, keys=list(sub), types={k: TYPES[v] for k, v in m.items()})
+                path = os.path.join(d, "f.csv"); _write(case, path, "csv", sep=sep, header=hdr)
+                full = di.ListOfDicts.read_csv(path, sep=sep, header=hdr)
+                got = di.ListOfDicts.read_csv(path, sep=sep, header=hdr, keys=list(sub), types={k: TYPES[v] for k, v in m.items()})
             else:
                 path = os.path.join(d, "f.json"); _write(case, path, "json")
                 full = di.ListOfDicts.read_json(path)
